@@ -56,17 +56,11 @@ impl Mode {
         lemma_small_mod(expr_bits(value) / 8, pow2(32));
         lemma_small_mod(expr_bits(value) / 8, pow2(64));
     }
-//@ after 0 `block.store(address.clone(), value);`
-    let ghost b_mid = *block;
-//@ after 0 `block.assign(self.sp(), address);`
+//@ before 0 `Ok(`
     proof {
         let b0 = *old(block);
         let n = b0.instructions@.len() as int;
-        assert(b_mid.instructions@ == b0.instructions@.push(mk_instruction(b0.next_instruction_index, Operation::Store { index: address, src: value })));
-        assert(block.instructions@ == b_mid.instructions@.push(mk_instruction(b_mid.next_instruction_index, Operation::Assign { dst: sp_scalar(*self), src: address })));
-        assert(block.instructions@[n] == mk_instruction(b0.next_instruction_index, Operation::Store { index: address, src: value }));
-        assert(block.instructions@[n + 1] == mk_instruction(b_mid.next_instruction_index, Operation::Assign { dst: sp_scalar(*self), src: address }));
-        assert(sp_moved(address, *self, true, expr_bits(value) / 8));
+        assert(block.instructions@.subrange(0, n) =~= b0.instructions@);
     }
 //@ end
 
@@ -86,15 +80,11 @@ impl Mode {
         lemma_small_mod((bits / 8) as nat, pow2(32));
         lemma_small_mod((bits / 8) as nat, pow2(64));
     }
-//@ after 0 `block.load(temp.clone(), self.sp().into());`
-    let ghost b_mid = *block;
-//@ before 0 `Ok(temp.into())`
+//@ before 0 `Ok(`
     proof {
         let b0 = *old(block);
         let n = b0.instructions@.len() as int;
-        assert(b_mid.instructions@ == b0.instructions@.push(mk_instruction(b0.next_instruction_index, Operation::Load { dst: temp, index: Expression::Scalar(sp_scalar(*self)) })));
-        assert(block.instructions@[n] == mk_instruction(b0.next_instruction_index, Operation::Load { dst: temp, index: Expression::Scalar(sp_scalar(*self)) }));
-        assert(block.instructions@[n + 1].operation matches Operation::Assign { dst, src } && dst == sp_scalar(*self) && sp_moved(src, *self, false, (bits / 8) as nat));
+        assert(block.instructions@.subrange(0, n) =~= b0.instructions@);
     }
 //@ end
 
